@@ -94,7 +94,7 @@ class QueryHandler:
     @staticmethod
     def _tokenize(expression_string):
         """Tokenize the expression string into a list"""
-        grouping_re = r"\[\[|\[|\]\]|\]|}|{|:"
+        grouping_re = r"\[|\]|}|{|:"
         paren_re = r"\)|\(|~"
         word_re = r"\?+|\&\&|\|\||,|[\"_\-a-zA-Z0-9/.^#\*@]+"
         re_string = fr"({grouping_re}|{paren_re}|{word_re})"
@@ -172,11 +172,12 @@ class QueryHandler:
                 raise ValueError("Parse error: Missing closing curly bracket")
         else:
             next_token = self._get_next_token()
-            if next_token and next_token.kind == Token.Wildcard:
+            if next_token.kind == Token.Wildcard:
                 expr = ExpressionWildcardNew(next_token)
-            elif next_token:
+            elif next_token.kind == Token.Tag:
                 expr = Expression(next_token)
             else:
-                expr = None
+                # A grouping symbol or operator where a term is expected, e.g. a stray closing bracket.
+                raise ValueError(f"Parse error: unexpected '{next_token.text}' in search string")
 
         return expr
